@@ -403,7 +403,14 @@ def scen_table(ch, params, out):
     rounds = params.get("rounds", 1)
     # tree genome: parent of model i is root (-1) or an earlier model
     shapes = list(itertools.product(*[range(-1, i) for i in range(n)]))
-    parents = ch.choose("parents", shapes, shard=True)
+    preset = None
+    if params.get("flat_only"):
+        # all models directly under the root: registration order = index order, and since the table is arbitrary this covers every
+        # similarity graph on n models in every registration order; the sharded first pick is the answers for four pairs
+        parents = tuple([-1] * n)
+        preset = ch.choose("similar(0,1),(0,2),(0,3),(1,2)", list(itertools.product([False, True], repeat=4)), shard=True)
+    else:
+        parents = ch.choose("parents", shapes, shard=True)
     wrap = [ch.choose(f"wrap{i}", ["obj", "list"]) if params.get("wraps") else "obj" for i in range(n)]
 
     def build(i, tag):
@@ -423,6 +430,9 @@ def scen_table(ch, params, out):
         return r
 
     bits = {}
+    if preset is not None:
+        for (x, y), v in zip([(0, 1), (0, 2), (0, 3), (1, 2)], preset):
+            bits[tuple(sorted(((f"ida{x}",), (f"ida{y}",))))] = v
 
     def ident(fields):
         ids = [k for k in fields if k.startswith("id")]
@@ -512,7 +522,7 @@ def scen_real(ch, params, out):
     from json_to_models.registry import ModelRegistry
     U = ["k0", "k1", "k2", "k3", "k4"][:params.get("keys", 5)]
     pol = ch.choose("policy", params.get("policies", ["default", "exact", "percent_50", "percent_67", "percent_100", "number_1",
-                                                     "number_2", "percent_50+number_2"]), shard=True)
+                                                     "number_2", "percent_50+number_2", "exact+number_2", "number_2+exact", "exact+percent_50"]), shard=True)
     keysets = []
     for i in range(3):
         ks = [k for k in U if ch.flag(f"m{i}.has({k})")]
@@ -627,6 +637,7 @@ def parts(tier):
             SMT("cmp_percent_as_constructed", "vflib.props.c05:kernel_percent_concrete", {"K": 16, "W": 8, "timeout": 60}, timeout=400),
             CH("table4", "vflib.props.c05:scen_table", {"models": 4}, shards=12, timeout=170, path_timeout=30),
             CH("table2x2rounds", "vflib.props.c05:scen_table", {"models": 2, "rounds": 2, "wraps": True}, shards=2, timeout=170, path_timeout=30),
+            CH("table5_flat", "vflib.props.c05:scen_table", {"models": 5, "flat_only": True}, shards=16, timeout=170, path_timeout=30),
             CH("real", "vflib.props.c05:scen_real", {"keys": 4, "policies": ["default", "percent_50", "number_2"]}, shards=3, timeout=170, path_timeout=30),
             CH("real3", "vflib.props.c05:scen_real", {"keys": 3}, shards=8, timeout=170, path_timeout=30),
             CH("cli_three_roots", "vflib.props.c05:scen_cli_roots", {"keys": 4}, shards=16, timeout=170, path_timeout=30),
@@ -639,6 +650,7 @@ def parts(tier):
         SMT("cmp_percent_as_constructed", "vflib.props.c05:kernel_percent_concrete", {"K": 64, "W": 8, "timeout": 120, "all": True}, timeout=6000),
         CH("table5", "vflib.props.c05:scen_table", {"models": 5, "wraps": False}, shards=16, timeout=400, path_timeout=30),
         CH("table4wraps", "vflib.props.c05:scen_table", {"models": 4, "wraps": True}, shards=16, timeout=400, path_timeout=30),
+        CH("table6_flat", "vflib.props.c05:scen_table", {"models": 6, "flat_only": True}, shards=16, timeout=400, path_timeout=30),
         CH("table2x2rounds", "vflib.props.c05:scen_table", {"models": 2, "rounds": 2, "wraps": True}, shards=2, timeout=400, path_timeout=30),
         CH("table3x2rounds", "vflib.props.c05:scen_table", {"models": 3, "rounds": 2, "wraps": False}, shards=6, timeout=400, path_timeout=30),
         CH("real", "vflib.props.c05:scen_real", {"keys": 4}, shards=8, timeout=400, path_timeout=30),
